@@ -19,7 +19,7 @@ RULE = ("exhaustive: every strobe/data word (w_en, r_en, w_data; w_data fixed to
         "{0,1,2,3,4,5,7,8,9,16,17} x width in {0,1,2,8} x both FIFOs with phases fill/drain/mixed/stream/idle whose "
         "lengths scale with the depth, data random, counting, or wider than the port; constructor arguments (negative "
         "width/depth) compared on acceptance. Per cycle compared: w_rdy, r_rdy, r_data (masked while r_rdy=0), level, "
-        "w_level, r_level (packed in one integer), plus the deque monitor verdict. non-trivial = some entry became readable (r_rdy seen); "
+        "w_level, r_level (packed, several cycles per integer), plus the deque monitor verdict. non-trivial = some entry became readable (r_rdy seen); "
         "distinct by case hash; full/empty/wrap-around visit counts are in the evidence (walk_visits)")
 MODELLED = ("SyncFIFO.elaborate, SyncFIFOBuffered.elaborate and _incr (amaranth/lib/fifo.py) are modelled by hand in "
             "coq/Model/Fifo.v as one-cycle step functions with explicit register widths; lib.memory.Memory with one write "
@@ -99,7 +99,7 @@ def gen_cases(tier, seed):
                 small.append({"k": "ctor", "g": "ctor", "kind": k, "w": w, "d": d})
     walks = []
     n = 3000 if thorough else 300
-    reps = 4 if thorough else 6
+    reps = 4
     for k in KINDS:
         for d in DEPTHS:
             for w in WIDTHS:
@@ -217,19 +217,47 @@ def run_impl(c):
     verdict, st = _monitor(c["k"], c["w"], c["d"], c["xs"], trace)
     if c.get("stats"):
         return [st[k] for k in STAT_KEYS]
-    return [_pack_out(o) for o in trace] + [verdict]
+    w = c["w"]
+    return _chunks([_pack_out(o, w) for o in trace], w + 7, _per_chunk(w)) + [verdict]
 
 
-def _pack_out(o):
+def _per_chunk(w):
+    return 60 // (w + 7)                # cycles per packed integer (each integer stays below 2^60)
+
+
+def _pack_out(o, w):
+    """w_rdy + 2*r_rdy + 4*(level + 32*(r_data + 2^w*(dw + 256*dr))), dw/dr = (w_level/r_level - level) mod 256"""
     w_rdy, r_rdy, r_data, level, w_level, r_level = o
-    assert max(level, w_level, r_level) < 256
-    return w_rdy + 2 * r_rdy + 4 * (level + 256 * (w_level + 256 * (r_level + 256 * (r_data if r_rdy else 0))))
+    assert 0 <= level < 32 and 0 <= r_data < (1 << w)
+    dw, dr = (w_level - level) % 256, (r_level - level) % 256
+    return w_rdy + 2 * r_rdy + 4 * (level + 32 * ((r_data if r_rdy else 0) + (1 << w) * (dw + 256 * dr)))
 
 
-def _unpack_out(v):
+def _unpack_out(v, w):
     w_rdy, r_rdy, v = v & 1, (v >> 1) & 1, v >> 2
-    return {"w_rdy": w_rdy, "r_rdy": r_rdy, "level": v & 255, "w_level": (v >> 8) & 255,
-            "r_level": (v >> 16) & 255, "r_data": v >> 24}
+    level, v = v & 31, v >> 5
+    r_data, v = v & ((1 << w) - 1), v >> w
+    return {"w_rdy": w_rdy, "r_rdy": r_rdy, "r_data": r_data, "level": level,
+            "w_level": (level + (v & 255)) % 256, "r_level": (level + (v >> 8)) % 256}
+
+
+def _chunks(vals, bits, k):
+    """k consecutive cycles per integer, little-endian digits of `bits` bits (fewer literals to parse in Coq)"""
+    out = []
+    for i in range(0, len(vals), k):
+        acc = 0
+        for j, v in enumerate(vals[i:i + k]):
+            acc += v << (bits * j)
+        out.append(acc)
+    return out
+
+
+def _unchunks(chunks, bits, k, n):
+    vals = []
+    for c in chunks:
+        for j in range(k):
+            vals.append((c >> (bits * j)) & ((1 << bits) - 1))
+    return vals[:n]
 
 
 STAT_KEYS = ["cycles", "full", "empty", "wraps", "writes", "reads", "simultaneous", "w_refused", "r_refused",
@@ -240,8 +268,11 @@ STAT_KEYS = ["cycles", "full", "empty", "wraps", "writes", "reads", "simultaneou
 def coq_term(c):
     if c["k"] == "ctor":
         return f"k_ctor {z(c['w'])} {z(c['d'])}"
-    fn = "k_syncfifo" if c["k"] == "sync" else "k_buffered"
-    return f"{fn} {z(c['w'])} {z(c['d'])} {zlist(c['xs'])}"
+    w, d, n = c["w"], c["d"], len(c["xs"])
+    assert 0 <= w < 16 and 0 <= d < 32 and all(0 <= x < (1 << (w + 5)) for x in c["xs"])
+    cfg = w + 16 * (d + 256 * n)
+    fn = "k_sync" if c["k"] == "sync" else "k_buf"
+    return f"{fn} {cfg} {zlist(_chunks(c['xs'], w + 5, _per_chunk(w)))}"
 
 
 def classify(c):
@@ -253,25 +284,35 @@ def classify(c):
 def nontrivial(c, obs):
     if c["k"] == "ctor":
         return c["w"] < 0 or c["d"] < 0
-    return any((v >> 1) & 1 for v in obs[:-1])
+    return any(o["r_rdy"] for o in decode(c, obs)[0])
+
+
+def decode(c, ans):
+    """per-cycle outputs and monitor verdict from an (observed or model) answer"""
+    w = c["w"]
+    return [_unpack_out(v, w) for v in _unchunks(ans[:-1], w + 7, _per_chunk(w), len(c["xs"]))], ans[-1]
 
 
 def explain(c):
-    return ("stimulus xs: one integer per cycle = w_en + 2*r_en + 4*w_data; answer: one integer per cycle = "
-            "w_rdy + 2*r_rdy + 4*(level + 256*(w_level + 256*(r_level + 256*r_data))) with r_data taken as 0 while "
-            "r_rdy=0, then the deque-monitor verdict (0 = ok, else 1+16*cycle+clause)")
+    if c["k"] == "ctor":
+        return "answer: [1] accepted / [0] TypeError"
+    return ("stimulus xs: one integer per cycle = w_en + 2*r_en + 4*w_data; answer: per cycle the code "
+            "w_rdy + 2*r_rdy + 4*(level + 32*(r_data + 2^w*(dw + 256*dr))) (r_data taken as 0 while r_rdy=0; dw, dr = "
+            f"w_level, r_level minus level mod 256), {_per_chunk(c['w'])} cycles per integer in little-endian digits of "
+            f"{c['w'] + 7} bits, then the deque-monitor verdict (0 = ok, else 1+16*cycle+clause); "
+            "props.c12.decode(case, answer) gives it cycle by cycle; in the Coq term cfg = w + 16*(d + 256*cycles)")
 
 
 def shrink(c, obs, model):
-    if c["k"] == "ctor":
-        return c, obs, model
-    k = next((i for i, (a, b) in enumerate(zip(obs, model)) if a != b), None)
-    if k is None or k >= len(obs) - 1:
+    if c["k"] == "ctor" or len(obs) != len(model) or obs[:-1] == model[:-1]:
         return c, obs, model                      # only the monitor verdict differs: keep the whole run
-    cycles = k + 1
+    w = c["w"]
+    o, m = decode(c, obs)[0], decode(c, model)[0]
+    cycles = next(i for i, (a, b) in enumerate(zip(o, m)) if a != b) + 1
     c2 = dict(c, xs=c["xs"][:cycles])
     obs2 = run_impl(c2)
-    model2 = model[:cycles] + [0]
+    mvals = _unchunks(model[:-1], w + 7, _per_chunk(w), len(c["xs"]))
+    model2 = _chunks(mvals[:cycles], w + 7, _per_chunk(w)) + [0]
     if obs2 == model2:
         return c, obs, model
     return c2, obs2, model2
